@@ -424,6 +424,48 @@ def fold_items():
                 except cm.UB:
                     continue
                 yield _ft_item("%s%s" % (op, cm.literal(a, ta)), v, t)
+    # floating operands: relational and equality operators on equal and neighbouring values, arithmetic, logical operators,
+    # and conversions between floating and integer types at the limits of the integer type
+    fvals = [0.0, -0.0, 1.0, -1.0, 0.5, -0.5, 2.0, 2.5, 1e10, -1e10, 4294967295.0, 4294967296.0, 2147483647.0, 2147483648.0, -2147483648.0,
+             9007199254740992.0, 9.223372036854775807e18, -9.223372036854775808e18, 1.8446744073709552e19, 1e-300, 16777217.0]
+    for op in ["<", ">", "<=", ">=", "==", "!=", "+", "-", "*", "/", "&&", "||"]:
+        for ta, tb in ((cm.DOUBLE, cm.DOUBLE), (cm.FLOAT, cm.FLOAT), (cm.DOUBLE, cm.INT), (cm.LONG, cm.DOUBLE), (cm.FLOAT, cm.DOUBLE), (cm.ULONG, cm.FLOAT)):
+            va = [cm.fnorm(x, ta) for x in fvals] if ta.kind == "float" else _ft_vals(ta)[::3]
+            vb = [cm.fnorm(x, tb) for x in fvals] if tb.kind == "float" else _ft_vals(tb)[::3]
+            for a in va:
+                for b in vb:
+                    if op in ("+", "-", "*", "/") and (a, b) not in ((1.0, 2.0), (0.5, 0.5)) and not (a == b or a == -b or b in (1.0, 2.0, 0.5)):
+                        continue
+                    try:
+                        v, t = cm.binop(op, a, ta, b, tb)
+                    except (cm.UB, ZeroDivisionError, OverflowError):
+                        continue
+                    if isinstance(v, float) and (math.isnan(v) or math.isinf(v)):
+                        continue
+                    yield _ft_item("%s %s %s" % (cm.literal(a, ta), op, cm.literal(b, tb)), v, t)
+    for ta in (cm.DOUBLE, cm.FLOAT):
+        for a in fvals:
+            a = cm.fnorm(a, ta)
+            for op in ("-", "!"):
+                try:
+                    v, t = cm.unop(op, a, ta)
+                except cm.UB:
+                    continue
+                yield _ft_item("%s%s" % (op, cm.literal(a, ta)), v, t)
+            for tc in FT_CAST:
+                try:
+                    v = cm.convert(a, ta, tc)
+                except (cm.UB, OverflowError, ValueError):
+                    continue
+                yield _ft_item("(%s)%s" % (tc.name, cm.literal(a, ta)), v, tc)
+    for ta in FT_TYPES:
+        for a in _ft_vals(ta):
+            for tc in (cm.DOUBLE, cm.FLOAT):
+                try:
+                    v = cm.convert(a, ta, tc)
+                except (cm.UB, OverflowError):
+                    continue
+                yield _ft_item("(%s)%s" % (tc.name, cm.literal(a, ta)), v, tc)
     for ta in FT_TYPES:
         for tc in FT_CAST:
             for a in _ft_vals(ta):
